@@ -69,6 +69,8 @@ type Act struct {
 	Seg []int  `json:"seg,omitempty"`
 	B   int    `json:"b,omitempty"`
 	N   int    `json:"n,omitempty"`
+
+	CrashIn bool `json:"crashin,omitempty"` // scenario: reopen every crash image taken inside this call
 }
 
 type Step struct {
@@ -192,6 +194,9 @@ type Node struct {
 func (n *Node) config() *core.BlockChainConfig {
 	cfg := core.DefaultConfig().WithStateScheme(n.scheme)
 	cfg.TxLookupLimit = 0 // index the entire chain
+	// pathdb flushes its write buffer in a background goroutine; crash images (copies of the
+	// key-value store between two writes of a call) must not race with it
+	cfg.TrieNoAsyncFlush = true
 	if n.scheme == rawdb.HashScheme {
 		cfg.SnapshotLimit = 0
 	}
@@ -603,7 +608,7 @@ func (n *Node) recoverImage(img *memorydb.Database, live State) (State, tl.M) {
 	rec, _ := rn.project()
 	rec.Ev, rec.Err = Events{Chain: []int{}, Head: []int{}, Rm: [][][2]int{}, Logs: [][][2]int{}}, "none"
 	normalize(&rec)
-	heal := tl.M{"target": live.Hb, "err": "none", "hb": -1, "hh": -1, "canonok": false, "state": false}
+	heal := tl.M{"target": live.Hb, "err": "none", "hb": -1, "hh": -1, "canonok": false, "state": false, "stop": "ok"}
 	if live.Hb > 0 {
 		var path []int
 		for b := live.Hb; b != 0; b = n.u.tree.Parent[b-1] {
@@ -629,11 +634,46 @@ func (n *Node) recoverImage(img *memorydb.Database, live State) (State, tl.M) {
 	} else {
 		heal["hb"], heal["hh"], heal["canonok"], heal["state"] = rec.Hb, rec.Hh, true, true
 	}
-	rn.bc.Stop()
+	// A clean shutdown of the recovered node: Stop commits the head state and the state of the
+	// canonical block below it (hash scheme) and dereferences a nil block when the number index
+	// has a hole there; reported as an observation, the process must survive.
+	heal["stop"] = func() (res string) {
+		defer func() {
+			if r := recover(); r != nil {
+				res = fmt.Sprintf("panic: %v", r)
+				rn.bc.VerifStopWithoutSaving()
+			}
+		}()
+		rn.bc.Stop()
+		return "ok"
+	}()
 	return rec, heal
 }
 
 var crashEvery int
+
+// applyWithImages runs a call while copying the key-value store after each of its writes, then
+// reopens every intermediate copy as after a crash and emits one CrashIn event per image (before
+// the event of the completed call: the specification is still in the state before the call).
+func (n *Node) applyWithImages(a Act, tr *tl.Trace, sum *tl.Summary) (Events, string, State, []string) {
+	n.kv.images, n.kv.max, n.kv.armed = nil, 16, true
+	ev, errc := n.apply(a)
+	n.kv.armed = false
+	got, odd := n.project()
+	got.Ev, got.Err = ev, errc
+	normalize(&got)
+	imgs := n.kv.images
+	n.kv.images = nil
+	if len(imgs) > 0 {
+		imgs = imgs[:len(imgs)-1] // the last image is the completed call
+	}
+	for k, img := range imgs {
+		rec, heal := n.recoverImage(img, got)
+		sum.Count("CrashIn")
+		tr.Emit(tl.M{"op": "CrashIn", "act": tl.M{"op": a.Op, "seg": orEmpty(a.Seg), "b": a.B, "n": a.N}, "k": k + 1, "st": rec, "heal": heal})
+	}
+	return ev, errc, got, odd
+}
 
 func runRecord(path string, seed int64, ntraces, steps, nblocks, ntx int, sum *tl.Summary) {
 	r := tl.Rand(seed)
@@ -695,28 +735,15 @@ func runRecord(path string, seed int64, ntraces, steps, nblocks, ntx int, sum *t
 			default:
 				a = Act{Op: "Restart"}
 			}
-			takeImages := crashEvery > 0 && a.Op != "Restart" && r.Intn(crashEvery) == 0
-			if takeImages {
-				n.kv.images, n.kv.max, n.kv.armed = nil, 16, true
-			}
-			ev, errc := n.apply(a)
-			n.kv.armed = false
-			got, odd := n.project()
-			got.Ev, got.Err = ev, errc
-			normalize(&got)
-			if takeImages {
-				// every intermediate image is reopened as after a crash; the events come before the
-				// event of the completed call (the specification is still in the state before the call)
-				imgs := n.kv.images
-				n.kv.images = nil
-				if len(imgs) > 0 {
-					imgs = imgs[:len(imgs)-1] // the last image is the completed call
-				}
-				for k, img := range imgs {
-					rec, heal := n.recoverImage(img, got)
-					sum.Count("CrashIn")
-					tr.Emit(tl.M{"op": "CrashIn", "act": tl.M{"op": a.Op, "seg": orEmpty(a.Seg), "b": a.B, "n": a.N}, "k": k + 1, "st": rec, "heal": heal})
-				}
+			var got State
+			var odd []string
+			if crashEvery > 0 && a.Op != "Restart" && r.Intn(crashEvery) == 0 {
+				_, _, got, odd = n.applyWithImages(a, tr, sum)
+			} else {
+				ev, errc := n.apply(a)
+				got, odd = n.project()
+				got.Ev, got.Err = ev, errc
+				normalize(&got)
 			}
 			calls = append(calls, Step{Act: a, St: got})
 			sum.Steps++
@@ -761,10 +788,15 @@ func runScenario(in, path string, sum *tl.Summary) {
 		st0.Ev, st0.Err = Events{Chain: []int{}, Head: []int{}, Rm: [][][2]int{}, Logs: [][][2]int{}}, "none"
 		tr.Emit(tl.M{"op": "reset", "tree": sc.Tree, "scheme": sc.Scheme, "st": st0})
 		for _, a := range sc.Calls {
-			ev, errc := n.apply(a)
-			got, _ := n.project()
-			got.Ev, got.Err = ev, errc
-			normalize(&got)
+			var got State
+			if a.CrashIn {
+				_, _, got, _ = n.applyWithImages(a, tr, sum)
+			} else {
+				ev, errc := n.apply(a)
+				got, _ = n.project()
+				got.Ev, got.Err = ev, errc
+				normalize(&got)
+			}
 			sum.Steps++
 			sum.Count(a.Op)
 			tr.Emit(tl.M{"op": a.Op, "seg": orEmpty(a.Seg), "b": a.B, "n": a.N, "st": got})
